@@ -6,7 +6,7 @@ import numpy as np
 from .. import history
 from ..battery import call, _Raised
 from ..models import KEYS
-from ..observe import observe
+from ..observe import npize, observe
 
 TIERS = {"quick": 600, "thorough": 12000}
 WATCHDOG_S = {"quick": 900, "thorough": 7200}
@@ -216,7 +216,7 @@ def static_case(ctx, rng, h, idx, stress):
         sel = [frozenset(e) for e in h.get_edges(order=d)]
         ctx.check("C09:per-order", set(sel) == {k for k in S.edges if len(k) == d + 1}, "C09:oracle-selfcheck", wit)
         for keep in (False, True):
-            r = call(la.incidence_matrix_by_order, h, d, keep_isolated_nodes=keep, return_mapping=True)
+            r = call(la.incidence_matrix_by_order, h, npize(rng, d), keep_isolated_nodes=npize(rng, keep), return_mapping=True)
             if isinstance(r, _Raised):
                 ctx.check("C09:per-order", False, f"C09:incidence_matrix_by_order:raised:{type(r.e).__name__}" + (":absent-order" if not sel else ""), lambda: wit((d, keep, r)))
                 continue
@@ -231,7 +231,7 @@ def static_case(ctx, rng, h, idx, stress):
             if not keep and all_inc is not None and not isinstance(all_inc, _Raised) and 1 <= d <= mx - 1:
                 ok = d in all_inc and np.array_equal(dense(all_inc[d]), I)
                 ctx.check("C09:per-order", ok, "C09:incidence_matrices_all_orders:differs-from-by-order", lambda: wit(d))
-        r = call(la.adjacency_matrix_by_order, h, d, return_mapping=True)
+        r = call(la.adjacency_matrix_by_order, h, npize(rng, d), return_mapping=True)
         if isinstance(r, _Raised):
             ctx.check("C09:per-order", False, f"C09:adjacency_matrix_by_order:raised:{type(r.e).__name__}", lambda: wit((d, r)))
             continue
@@ -253,7 +253,7 @@ def static_case(ctx, rng, h, idx, stress):
         else:
             Dm = dense(r)
             ctx.check("C09:laplacian", Dm.shape == (N, N) and np.array_equal(Dm, np.diag(degs)), "C09:degree_matrix:entries", lambda: wit((d, np.diag(Dm).tolist(), degs.tolist())))
-        r = call(la.laplacian_matrix_by_order, h, d)
+        r = call(la.laplacian_matrix_by_order, h, npize(rng, d))
         if isinstance(r, _Raised):
             ctx.check("C09:laplacian", False, f"C09:laplacian_matrix_by_order:raised:{type(r.e).__name__}", lambda: wit((d, r)))
             continue
